@@ -429,7 +429,9 @@ pub fn model_apply(st: &mut TableState, op: &Op, history: &BTreeMap<u64, TableSt
             if st.col(name).is_some() {
                 return Err("column exists".into());
             }
-            st.cols.push(ColDef { name: name.clone(), ty: *ty, nullable: true });
+            // lance derives nullability from the expression: `col + const` is nullable iff col is
+            let nullable = st.cols[fi].nullable;
+            st.cols.push(ColDef { name: name.clone(), ty: *ty, nullable });
             for r in st.rows.iter_mut() {
                 let v = match &r[fi] {
                     Val::I(x) => Val::I(x + add),
